@@ -91,6 +91,8 @@ func Saturated(s Script) bool {
 	for _, op := range s.Ops {
 		switch op.K {
 		case "R", "T", "D":
+		case "FP":
+			rel++
 		case "F", "FM":
 			rel += len(op.Picks)
 		default:
